@@ -4,7 +4,7 @@ tier=${1:-quick}; seed=${2:-1}
 cd "$(dirname "$0")/.."
 for i in $(python3 -c "
 import json
-print(' '.join(c['property_id'] for c in json.load(open('MANIFEST.json'))['checks']))") ISAAC; do
+print(' '.join(c['property_id'] for c in json.load(open('MANIFEST.json'))['checks']))") ISAAC SRCPOOL CONNPOOL; do
   s=$(date +%s)
   VERIF_SEED=$seed timeout 3000 python3 check/check.py $i --tier $tier > .work/sweep_${tier}_$i.log 2>&1; rc=$?
   e=$(date +%s)
